@@ -95,6 +95,13 @@ def _xv_value(kind, enc, version=0):
         import xarray as xr
         return xr.Dataset({"v": ((), num), "w": (("t",), [num + 1.0, num + 2.0])},
                           coords={"t": [10, 20]})
+    if kind == "dataset_tv":
+        # the internal coordinate's labels depend on the arguments (same
+        # length, other values)
+        import xarray as xr
+        t0 = int(num) % 5
+        return xr.Dataset({"v": ((), num), "w": (("t",), [num + 1.0, num + 2.0])},
+                          coords={"t": [t0, t0 + 7]})
     if kind == "dataset_nc":
         # internal dimension without coordinate (to be named by a constant)
         import xarray as xr
